@@ -59,20 +59,33 @@ def placeholder_roles(f) -> dict:
     return {"flags": flags, "deps": {"js": R["js"], "css": R["css"]}, "work": R["work"]}
 
 
-def s12_gives_up_only_without_both(chk: Check, proj: Project, m) -> None:
-    chk.rule("S12", "the default-location helper gives up early only when there is NOTHING to insert: both kinds absent (the caller passes None for the kind whose placeholder was found, so one None is the normal case)")
+def s12_gives_up_only_without_both(chk: Check, proj: Project, m, rule: str = "S12") -> None:
+    chk.rule(rule, "the default-location helper gives up (returns None) only when NOTHING was or could be inserted: at the top both kinds must be absent (one None is the normal case - the caller passes None for the kind whose placeholder was found); after the scan a give-up must not depend on the position of only ONE of the two end tags")
     f = m.func("_insert_js_css_to_default_locations")
     kinds = [p_ for p_ in params(f) if p_.endswith("_content") and p_ != params(f)[0]]
-    rets = [r for r in f.body[:4] for r in ast.walk(r) if isinstance(r, ast.Return) and (r.value is None or (isinstance(r.value, ast.Constant) and r.value.value is None))]
-    if len(kinds) != 2 or not rets:
-        chk.holds("S12", "dependencies:_insert_js_css_to_default_locations:early-return-needs-both-absent", m.loc(f), "no early give-up at the top of the helper", nontrivial=False)
+    nones = [r for r in stmts(f) if isinstance(r, ast.Return) and (r.value is None or (isinstance(r.value, ast.Constant) and r.value.value is None))]
+    if len(kinds) != 2:
+        chk.undecided(rule, "dependencies:_insert_js_css_to_default_locations:give-up-conditions", m.loc(f), "content parameters not identified")
         return
-    r = rets[0]
-    at = {t for t, pol in cond_atoms(r) if pol}
-    ok = all(f"{k} is None" in at for k in kinds)
-    chk.ob("S12", "dependencies:_insert_js_css_to_default_locations:early-return-needs-both-absent", m.loc(r), ok,
-           f"the early `return None` requires `{kinds[0]} is None` AND `{kinds[1]} is None`" if ok else
-           f"the early `return None` does not require BOTH `{kinds[0]} is None` and `{kinds[1]} is None` (its guard: `{short(enclosing_stmt(r).test) if hasattr(enclosing_stmt(r), 'test') else '?'}`): a page with a placeholder for only one kind gets None for that kind - the helper bails out and the OTHER kind is never inserted at its default location")
+    idx, _bad = optional_index_truthiness(f)
+    n = 0
+    for r in nones:
+        at = {t for t, pol in cond_atoms(r) if pol}
+        guard = enclosing_stmt(r)
+        g = next((a_ for a_ in ancestors(r) if isinstance(a_, ast.If)), None)
+        key = f"dependencies:_insert_js_css_to_default_locations:give-up@{'top' if g is not None and g in f.body[:4] else 'after-scan' if g is not None else 'end'}"
+        n += 1
+        both_absent = all(f"{k} is None" in at for k in kinds)
+        flag_based = any(not (" is None" in t) for t in at) or not at  # e.g. `not did_modify_html`: decided by what happened
+        # a disjunction leaves no atom: look at the guard's test itself
+        disj = isinstance(getattr(g, "test", None), ast.BoolOp) and isinstance(g.test.op, ast.Or) and all(isinstance(v, ast.Compare) and isinstance(v.ops[0], ast.Is) for v in g.test.values) if g is not None else False
+        if disj:
+            chk.violated(rule, key, m.loc(r), f"`if {short(g.test)}: return None` gives up as soon as ONE of the two is missing: a page with a placeholder for only one kind, or with </body> but no </head>, silently loses the other kind's tags (the markers are stripped regardless, so nothing recovers them)")
+        elif both_absent or flag_based:
+            chk.holds(rule, key, m.loc(r), "gives up only if both kinds are absent / nothing was inserted")
+        else:
+            chk.violated(rule, key, m.loc(r), f"`return None` under {sorted(at)} does not require both kinds to be absent: the other kind is never inserted")
+    chk.floor(rule, n, 2)
 
 
 def s10_scan_input(chk: Check, proj: Project, m) -> None:
